@@ -171,7 +171,11 @@ def matrix_package(quick: bool):
                                              ("c", S(N("MxRec")))]))
     protos.append(Proto("MxImplicit", [("a", U(((None, P("int32")), (None, P("bool"))))), ("b", U(((None, P("string")), (None, N("MxEnum"))))),
                                       ("c", U(((None, P("float32")), (None, P("float64"))))), ("d", S(U(((None, P("int32")), (None, N("MxRec"))), True)))]))
-    return Pkg("Matrix", [Rc, Rc2, E1, F1, Gen] + protos)
+    # a record whose fields can all be omitted: the value with every field null is still an object, also below an optional and in a union
+    AllOpt = Rec("MxAllOpt", [("label", Opt(P("string"))), ("weight", Opt(P("int32"))), ("u", U(((None, P("int32")), (None, P("string"))), True))])
+    protos.append(Proto("MxAllOptional", [("plain", N("MxAllOpt")), ("maybe", Opt(N("MxAllOpt"))), ("items", S(N("MxAllOpt"))), ("vec", V(N("MxAllOpt"))),
+                                          ("inUnion", U(((None, N("MxAllOpt")), (None, P("string"))))), ("m", M(P("string"), N("MxAllOpt")))]))
+    return Pkg("Matrix", [Rc, Rc2, E1, F1, Gen, AllOpt] + protos)
 
 
 def run_matrix(ctx, quick):
@@ -192,6 +196,10 @@ def run_matrix(ctx, quick):
                 if isinstance(t, U) and not isinstance(t, S):
                     ci = k % len(t.cases)
                     vals[i] = (ci, vg.gen(c.fq(t.cases[ci][1]), 1))
+            if proto.name == "MxAllOptional":
+                empty = [None, None, None]
+                full = [(0, "x"), (0, k), (1, "s")]
+                vals = [empty, (0, empty) if k % 2 == 0 else None, [empty, full, empty][: 1 + k % 3], [empty, full][: 1 + k % 2], (0, empty) if k % 3 else (1, "str"), [["k1", empty], ["k2", full]]]
             if proto.name == "MxGenericNullable":
                 vals[0] = [[i, (None if i % 2 else (0, i * 7))] for i in range(6)]
                 vals[1] = [[i, (None if i % 3 == 1 else ((0, i) if i % 3 == 0 else (1, "s%d" % i)))] for i in range(7)]
